@@ -1,11 +1,68 @@
 import Tmcg.Driver
+import Tmcg.Model.Ot
 /-
   Line-protocol handlers kept in a separate file so that they can be developed independently of
   Tmcg/Driver.lean.
+
+  Oblivious transfer (C18, harness/drv_ot.cc):
+    ot.send   <12|1n|opt> p q g [M_0,…] [coins] [peer] => [written] ok|refused|throw:…
+    ot.choose <12|1n|opt> p q g N sigma [coins] [peer] => [written] M|refused|throw:…
+    ot.decrypt p q g b w ENC => M'|refused            (the chooser's last step on any ciphertext)
+  `coins`: the values of the `tmcg_mpz_srandomm(·, q)` draws, in the order drawn;
+  `peer`: the peer's lines, decimal, `x` for a line that does not parse.
 -/
 namespace Tmcg.DriverOt
 open Tmcg Tmcg.Driver
 
-def handlers : List (String × Handler) := []
+def pVariant : String → Option Ot.Variant
+  | "12" => some .two | "1n" => some .n | "opt" => some .opt | _ => none
+
+/-- peer lines: integers, anything else is an unparsable line -/
+def pPeer (s : String) : Option (List (Option Int)) := do
+  let l ← pList s
+  some (l.map pInt)
+
+def showResult : Ot.Result → String
+  | .done none => "ok"
+  | .done (some M) => toString M
+  | .refused => "refused"
+  | .failed e => toString e
+
+def showOutcome (ncoins : Nat) (o : Ot.Outcome) : String :=
+  if o.draws ≠ ncoins then s!"coin-count-mismatch model:{o.draws} trace:{ncoins}"
+  else s!"{showList o.written} {showResult o.result}"
+
+def hSend : Handler
+  | [v, p, q, g, M, coins, peer] => do
+    let v ← pVariant v; let p ← pInt p; let q ← pInt q; let g ← pInt g
+    let M ← pIntList M; let coins ← pIntList coins; let peer ← pPeer peer
+    some (match Ot.mkInst ⟨p, q, g⟩ with
+      | .error e => toString e
+      | .ok I => showOutcome coins.length (Ot.sendFlat v I M coins peer))
+  | _ => none
+
+def hChoose : Handler
+  | [v, p, q, g, N, σ, coins, peer] => do
+    let v ← pVariant v; let p ← pInt p; let q ← pInt q; let g ← pInt g
+    let N ← pNat N; let σ ← pNat σ; let coins ← pIntList coins; let peer ← pPeer peer
+    some (match Ot.mkInst ⟨p, q, g⟩ with
+      | .error e => toString e
+      | .ok I => showOutcome coins.length (Ot.chooseFlat v I N σ coins peer))
+  | _ => none
+
+def hDecrypt : Handler
+  | [p, q, g, b, w, e] => do
+    let p ← pInt p; let q ← pInt q; let g ← pInt g; let b ← pInt b; let w ← pInt w; let e ← pInt e
+    some (match Ot.mkInst ⟨p, q, g⟩ with
+      | .error er => toString er
+      | .ok I => match Ot.decrypt I b w e with
+        | .error er => toString er
+        | .ok none => "refused"
+        | .ok (some M) => toString M)
+  | _ => none
+
+def handlers : List (String × Handler) := [
+  ("ot.send", hSend), ("ot.choose", hChoose), ("ot.decrypt", hDecrypt)
+]
 
 end Tmcg.DriverOt
